@@ -94,6 +94,12 @@ theorem err_spec : ∀ (τ : Ty) (j : PV) (p : Path) (e : PyExc), parseValue τ 
     cases j <;> simp only [parseValue, reduceCtorEq] at h <;> exact mismatch_spec (by rfl) h
   | .bool, j, p, e, h => by
     cases j <;> simp only [parseValue, reduceCtorEq] at h <;> exact mismatch_spec (by rfl) h
+  | .listAny, j, p, e, h => by
+    cases j <;> simp only [parseValue, reduceCtorEq] at h <;> exact mismatch_spec (by rfl) h
+  | .tupleAny, j, p, e, h => by
+    cases j <;> simp only [parseValue, reduceCtorEq] at h <;> exact mismatch_spec (by rfl) h
+  | .dictAny, j, p, e, h => by
+    cases j <;> simp only [parseValue, reduceCtorEq] at h <;> exact mismatch_spec (by rfl) h
   | .list t, j, p, e, h => by
     cases j with
     | list xs =>
@@ -258,6 +264,9 @@ theorem headOk_false_error : ∀ (τ : Ty) (j : PV), headOk τ j = false → ∀
     | _ => simp [headOk] at h <;> exact ⟨_, by simp only [parseValue]; rfl⟩
   | .str, j, h, p => by cases j <;> simp [headOk] at h <;> exact ⟨_, by simp only [parseValue]; rfl⟩
   | .bool, j, h, p => by cases j <;> simp [headOk] at h <;> exact ⟨_, by simp only [parseValue]; rfl⟩
+  | .listAny, j, h, p => by cases j <;> simp [headOk] at h <;> exact ⟨_, by simp only [parseValue]; rfl⟩
+  | .tupleAny, j, h, p => by cases j <;> simp [headOk] at h <;> exact ⟨_, by simp only [parseValue]; rfl⟩
+  | .dictAny, j, h, p => by cases j <;> simp [headOk] at h <;> exact ⟨_, by simp only [parseValue]; rfl⟩
   | .list t, j, h, p => by cases j <;> simp [headOk] at h <;> exact ⟨_, by simp only [parseValue]; rfl⟩
   | .tupleVar t, j, h, p => by cases j <;> simp [headOk] at h <;> exact ⟨_, by simp only [parseValue]; rfl⟩
   | .dict t, j, h, p => by cases j <;> simp [headOk] at h <;> exact ⟨_, by simp only [parseValue]; rfl⟩
